@@ -60,6 +60,16 @@ BUILT = {
  "C17": ("exploration", "exhaustive enumeration of every named quantity / registry dimensionality / small base-unit product in three spellings for `units for` and `factorize` against the registry dump",
          "For each dimensionality the listed units must equal the dump's non-alias units of that exponent vector under their categories, and every factorization must multiply out; answers must not depend on the spelling.",
          "factorize explored up to a complexity bound", "3/C17"),
+
+ "C18": ("fault_enumeration", "exhaustive enumeration of fault sequences (6 request kinds, length <= 2/4, two gap lengths) against the real Sandbox with real child processes, one parent process per sequence",
+         "Every sequence over {normal, panic, time-limit overrun, memory exhaustion, child exit, large payload} up to the length bound, followed by two normal requests, at two inter-request gaps, is executed against the real parent/child code; replies are matched to requests by unique operands and process ids are tracked.",
+         "real time: 700 ms service limit, anomalies re-run once before being believed; sequences longer than the bound are out of reach", "3/C18"),
+ "C19": ("model_checking", "explicit-state BFS over allocator operation histories on the real Alloc (sequential) plus loom exploration of every interleaving of 2-3 threads on the allocator source derived textually from the repository file",
+         "Sequential: BFS with state canonicalisation to depth 6 (thorough 10) where every transition is replayed on a fresh real allocator against an integer byte counter. Concurrent: 448 harness bodies (2 threads x 1-2 ops unbounded, 3 threads x 1 op at preemption bound 2 / unbounded) under loom on the repository's own allocator text compiled against loom atomics, with a call/return timeline oracle for usage, limit and peak.",
+         "loom's model of the C11 memory model; the derived source differs from the repository file only in its import header and `const fn`; more than 3 threads and longer per-thread sequences are out of reach", "3/C19"),
+ "C20": ("fault_enumeration", "exhaustive enumeration of prior cache state x server behaviour x entry point on the real rink binary, and of every crash point (SIGKILL injected by strace before each file-system syscall on the cache directory)",
+         "All 5 x ~14-28 x 2 scenarios are run against a fault-injecting HTTP server; for the scenarios where data arrives (thorough: all) the process is killed before each open/write/fsync/rename/unlink on the cache directory and the cache bytes, the next start and exit statuses are checked.",
+         "process crash, not power loss; rename(2) atomicity trusted; close-delimited HTTP bodies excluded", "3/C20"),
 }
 
 NOT_YET = {}
@@ -76,7 +86,7 @@ for p in props:
             "thorough_cmd": f"./check {i} --tier thorough",
             "evidence_file": f"/verif/evidence/{i}.json",
             "replay_cmd_template": f"./check {i} --replay {{path}}",
-            "engine": "mc",
+            "engine": {"C18": "mc-sandbox", "C19": "mc-sandbox + mc-alloc-loom", "C20": "c20"}.get(i, "mc"),
             "level_claimed": {"category": level, "text": text, "design_ref": f"DESIGN.md section {ref}"},
             "level_note": note,
             "technique": tech,
@@ -95,7 +105,13 @@ m = {
   "add_only": True,
  },
  "engines": [
-  {"name": "mc", "path": "harness/", "serves_properties": sorted(BUILT.keys()),
+  {"name": "mc-sandbox", "path": "harness/mc-sandbox/", "serves_properties": ["C18", "C19"],
+   "kind_free_text": "fault-sequence runner for the real Sandbox (parent + child processes) and explicit-state BFS over the real allocator"},
+  {"name": "mc-alloc-loom", "path": "harness-loom/", "serves_properties": ["C19"],
+   "kind_free_text": "loom model checker on the allocator source derived by build.rs from /repo/sandbox/src/alloc.rs"},
+  {"name": "c20", "path": "check-C20", "serves_properties": ["C20"],
+   "kind_free_text": "python orchestrator: fault-injecting HTTP server + the real rink binary + strace kill injection at every cache-directory syscall"},
+  {"name": "mc", "path": "harness/", "serves_properties": sorted(k for k in BUILT.keys() if k not in ("C18", "C19", "C20")),
    "kind_free_text": "Rust workspace: exhaustive-enumeration engine (worker processes with watchdog, catch_unwind, address-space limit) + one Space per property, running the real rink-core code against independent reference models"},
  ],
  "checks": checks,
